@@ -46,7 +46,7 @@ def build_tables(dp):
         fac = (dp.get("size_factors") or [1.0] * dp["n_files"])[f] if f < len(dp.get("size_factors") or []) else 1.0
         t = datagen.gen_table(
             rng,
-            n_spectra=max(30, int(dp["n_spectra"] * fac)),
+            n_spectra=max(45, int(dp["n_spectra"] * fac)),
             max_per_spectrum=dp["max_per_spectrum"],
             n_features=dp["n_features"],
             spec_extra=dp["spec_extra"],
